@@ -27,6 +27,7 @@ import (
 	"github.com/boombuler/barcode/pdf417"
 	"github.com/boombuler/barcode/qr"
 	"github.com/boombuler/barcode/twooffive"
+	"github.com/boombuler/barcode/utils"
 )
 
 func unhex(s string) []byte {
@@ -219,6 +220,26 @@ func encodeOp(f []string) (barcode.Barcode, error, bool) {
 		f = f[:n-1]
 	}
 	switch f[0] {
+	case "raw1d":
+		// raw1d <kind hex> <content hex> <bits> <checksum|->: the four public constructors of utils/base1dcode.go
+		if len(f) != 5 {
+			panic("bad arity raw1d")
+		}
+		bars := new(utils.BitList)
+		for _, c := range f[3] {
+			bars.AddBit(c == '1')
+		}
+		kind, content := string(unhex(f[1])), string(unhex(f[2]))
+		switch {
+		case f[4] == "-" && sch == nil:
+			return utils.New1DCode(kind, content, bars), nil, true
+		case f[4] == "-":
+			return utils.New1DCodeWithColor(kind, content, bars, *sch), nil, true
+		case sch == nil:
+			return utils.New1DCodeIntCheckSum(kind, content, bars, atoi(f[4])), nil, true
+		default:
+			return utils.New1DCodeIntCheckSumWithColor(kind, content, bars, atoi(f[4]), *sch), nil, true
+		}
 	case "ean":
 		if sch != nil {
 			bc, err := ean.EncodeWithColor(string(unhex(f[1])), *sch)
